@@ -175,16 +175,44 @@ def skipWs : List Char → List Char
   | c :: r => if c == ' ' || c == '\n' || c == '\t' || c == '\r' then skipWs r else c :: r
   | [] => []
 
+def hexVal? (c : Char) : Option Nat :=
+  if '0' ≤ c ∧ c ≤ '9' then some (c.toNat - 48)
+  else if 'a' ≤ c ∧ c ≤ 'f' then some (c.toNat - 87)
+  else if 'A' ≤ c ∧ c ≤ 'F' then some (c.toNat - 55)
+  else none
+
+def hex4? (a b c d : Char) : Option Nat := do
+  some (4096 * (← hexVal? a) + 256 * (← hexVal? b) + 16 * (← hexVal? c) + (← hexVal? d))
+
 def parseStringBody : List Char → List Char → Option (String × List Char)
   | [], _ => none
   | '"' :: r, acc => some (String.ofList acc.reverse, r)
+  | '\\' :: 'u' :: a :: b :: c :: d :: '\\' :: 'u' :: e :: f :: g :: h :: r, acc =>
+    match hex4? a b c d, hex4? e f g h with
+    | some hi, some lo =>
+      if 0xD800 ≤ hi ∧ hi < 0xDC00 ∧ 0xDC00 ≤ lo ∧ lo < 0xE000 then
+        parseStringBody r (Char.ofNat (0x10000 + (hi - 0xD800) * 1024 + (lo - 0xDC00)) :: acc)
+      else
+        -- two separate escapes: the first one now, the second on the next round
+        let c1 := if 0xD800 ≤ hi ∧ hi < 0xE000 then Char.ofNat 0xFFFD else Char.ofNat hi
+        parseStringBody ('\\' :: 'u' :: e :: f :: g :: h :: r) (c1 :: acc)
+    | some hi, none => if 0xD800 ≤ hi ∧ hi < 0xE000 then none else none
+    | none, _ => none
+  | '\\' :: 'u' :: a :: b :: c :: d :: r, acc =>
+    match hex4? a b c d with
+    | some n => parseStringBody r ((if 0xD800 ≤ n ∧ n < 0xE000 then Char.ofNat 0xFFFD else Char.ofNat n) :: acc)
+    | none => none
   | '\\' :: c :: r, acc =>
     if c == 'n' then parseStringBody r ('\n' :: acc)
     else if c == 't' then parseStringBody r ('\t' :: acc)
     else if c == 'r' then parseStringBody r ('\r' :: acc)
+    else if c == 'b' then parseStringBody r (Char.ofNat 8 :: acc)
+    else if c == 'f' then parseStringBody r (Char.ofNat 12 :: acc)
     else if c == '"' || c == '\\' || c == '/' then parseStringBody r (c :: acc)
-    else none      -- \u, \b, \f: outside the modelled subset
+    else none
   | c :: r, acc => if c.toNat < 32 then none else parseStringBody r (c :: acc)
+termination_by l _ => l.length
+decreasing_by all_goals (simp_wf; try omega)
 
 def isNumChar (c : Char) : Bool := c.isDigit || c == '-' || c == '+' || c == '.' || c == 'e' || c == 'E'
 
